@@ -25,12 +25,26 @@ class Tag(object):
 
 
 T1, T2, T3 = Tag('T1'), Tag('T2'), Tag('T3')
+
+
+class Box(object):
+    """Box[x]: one object per x, like the cached generic aliases of typing (an annotation that is an expression,
+    not a bare name: its postponed spelling is a string no two code objects share)."""
+    _made = {}
+
+    def __class_getitem__(cls, item):
+        return cls._made.setdefault(id(item), Tag('Box[%r]' % (item,)))
+
+
 CONFIGS = {
-    'shared':  ({'T': T1, 'U': T2}, {'T': T1, 'U': T2}),
-    'swapped': ({'T': T1, 'U': T2}, {'T': T2, 'U': T1}),
-    'aliased': ({'T': T1, 'U': T1}, {'T': T1, 'U': T1}),
-    'mixed':   ({'T': T1, 'U': T2}, {'T': T3, 'U': T1}),
+    'shared':  ({'T': T1, 'U': T2, 'Box': Box}, {'T': T1, 'U': T2, 'Box': Box}),
+    'swapped': ({'T': T1, 'U': T2, 'Box': Box}, {'T': T2, 'U': T1, 'Box': Box}),
+    'aliased': ({'T': T1, 'U': T1, 'Box': Box}, {'T': T1, 'U': T1, 'Box': Box}),
+    'mixed':   ({'T': T1, 'U': T2, 'Box': Box}, {'T': T3, 'U': T1, 'Box': Box}),
 }
+# bare names; an expression; string literals (written as annotations they denote the string itself -- also under
+# PEP 563, where the stored text is the literal's source -- whether or not a global of that name exists)
+SPELLINGS = ('T', 'U', 'T', 'U', 'Box[T]', 'Box[U]', "'T'", "'Zed'")
 OPS = ['merge', 'embed', 'forwards', 'mask', 'partial', 'modifier', 'discovery', 'discovery-method', 'merge3']
 
 
@@ -42,9 +56,9 @@ def annotate_params(rnd, params, p=0.6):
     out = []
     for n, k, d, a in params:
         if rnd.random() < p:
-            a = rnd.choice(('T', 'U'))
+            a = rnd.choice(SPELLINGS)
         out.append((n, k, d, a))
-    return tuple(out), (rnd.choice(('T', 'U')) if rnd.random() < 0.5 else None)
+    return tuple(out), (rnd.choice(SPELLINGS) if rnd.random() < 0.5 else None)
 
 
 def build(params, ret, globs, future, name, body='return None', prefix=''):
@@ -53,7 +67,7 @@ def build(params, ret, globs, future, name, body='return None', prefix=''):
 
 
 def denoted(spelling, globs):
-    return EMPTY if spelling is None else globs[spelling]
+    return EMPTY if spelling is None else eval(spelling, dict(globs))
 
 
 def check_inputs(ctx, f, params, ret, globs, w, rp, label):
@@ -243,7 +257,7 @@ def spelling_mechanism(name, contributors, result):
             if not same and kind in (VA, VK) and p[1] == kind:
                 same = True
             if same and p[3] is not None:
-                cands.append((p[3], globs[p[3]]))
+                cands.append((p[3], denoted(p[3], globs)))
     for i in range(len(cands)):
         for j in range(i + 1, len(cands)):
             if (cands[i][0] == cands[j][0]) != (cands[i][1] is cands[j][1]):
